@@ -45,7 +45,27 @@ def _data_attrs():
             if callable(v) and not isinstance(v, (dict, list, set)):
                 continue
             out[(name, k)] = v
+        # mutable class-level attributes of the library's classes belong to the process image too
+        for cn, c in vars(mod).items():
+            if isinstance(c, type) and getattr(c, "__module__", None) == name:
+                for k, v in vars(c).items():
+                    if not k.startswith("__") and isinstance(v, (dict, list, set)):
+                        out[(name, cn, k)] = v
     return out
+
+
+def _owner(key):
+    return sys.modules[key[0]] if len(key) == 2 else getattr(sys.modules[key[0]], key[1])
+
+
+def _fresh_copy(v, memo):
+    try:
+        return copy.deepcopy(v, memo)
+    except Exception:  # noqa
+        try:
+            return type(v)()
+        except Exception:  # noqa
+            return v
 
 
 class Machine:
@@ -63,14 +83,14 @@ class Machine:
 
     def fresh_image(self):
         memo = {}
-        return {k: copy.deepcopy(v, memo) for k, v in self.pristine.items()}
+        return {k: _fresh_copy(v, memo) for k, v in self.pristine.items()}
 
     def install(self, image):
-        for (mn, k), v in image.items():
-            setattr(sys.modules[mn], k, v)
+        for key, v in image.items():
+            setattr(_owner(key), key[-1], v)
 
     def capture(self):
-        return {(mn, k): getattr(sys.modules[mn], k) for (mn, k) in self.keys}
+        return {key: getattr(_owner(key), key[-1]) for key in self.keys}
 
     def _patch_nondeterminism(self):
         m = self
